@@ -1905,3 +1905,64 @@ def _cmp_min(I, f, a):
 @model("core::cmp::max", "std::cmp::max")
 def _cmp_max(I, f, a):
     return _ord_max(I, f, a)
+
+
+@model("std::cell::RefCell::<T>::try_borrow")
+def _refcell_try_borrow(I, f, a):
+    cell = deref(I, a[0])
+    if not isinstance(cell, RcCell):
+        raise I.unanalysable("RefCell::try_borrow on %r" % (cell,))
+    for g in I.guards:
+        if g.live and g.mut and g.cell.may_alias(cell):
+            if g.cell is cell or I.run.choose(2, "try_borrow conflicts") == 1:
+                return err(Opaque("BorrowError"))
+    g = Guard(cell, False)
+    cell.shared += 1
+    I.guards.append(g)
+    return ok(g)
+
+
+@model("std::cell::RefCell::<T>::try_borrow_mut")
+def _refcell_try_borrow_mut(I, f, a):
+    cell = deref(I, a[0])
+    if not isinstance(cell, RcCell):
+        raise I.unanalysable("RefCell::try_borrow_mut on %r" % (cell,))
+    for g in I.guards:
+        if g.live and g.cell.may_alias(cell):
+            if g.cell is cell or I.run.choose(2, "try_borrow_mut conflicts") == 1:
+                return err(Opaque("BorrowMutError"))
+    g = Guard(cell, True)
+    cell.mut = True
+    I.guards.append(g)
+    return ok(g)
+
+
+def _hash_noop(I, f, a):
+    return unit()
+
+
+for _t in ("bool", "i32", "i64", "isize", "u64", "u8", "usize", "u32", "u16", "i8", "i16", "char", "str"):
+    MODELS["core::hash::impls::<impl std::hash::Hash for %s>::hash" % _t] = _hash_noop
+MODELS["<std::string::String as std::hash::Hash>::hash"] = _hash_noop
+MODELS["<std::vec::Vec<T, A> as std::hash::Hash>::hash"] = _hash_noop
+MODELS["std::hash::Hasher::write_usize"] = _hash_noop
+MODELS["std::hash::Hash::hash"] = _hash_noop
+
+
+@model("std::str::<impl str>::repeat", "std::slice::<impl [T]>::repeat")
+def _repeat(I, f, a):
+    v = deref(I, a[0])
+    n = a[1]
+    import models2
+    b = models2.as_str(I, v) if isinstance(v, Bytes) or hasattr(v, "to_bytes") else None
+    if b is None:
+        raise I.unanalysable("repeat on %r" % (v,))
+    if isinstance(n, int) and n <= 64:
+        return Bytes(list(b.parts) * n, b.is_str)
+    nlo, nhi = bounds(n)
+    lo, hi = b.fixed_len()
+    if hi is None or nhi > (1 << 20):
+        raise I.unanalysable("repeat with unbounded count")
+    cs = models2.charset_of(I, b)
+    kind = "str" if b.is_str else "bytes"
+    return Bytes([("pay", Payload(kind, cs, Sym("repeat_len", (), "usize", lo * nlo, hi * nhi), origin="repeat_of:%d" % b.src_id))], b.is_str)
